@@ -42,8 +42,9 @@ THEOREMS = [
     "C05.wf_of_list_constructor", "C05.wf_of_map_constructor", "C05.list_derivations", "C05.list_items",
     "C05.map_derivations", "C05.map_items", "C05.map_string_keys", "C05.dict_key_order",
     "C05.dict_last_value", "C05.seq_items", "C05.empty_and_absent", "C05.final_delim", "C05.final_delim_map",
-    "C05.nesting", "C05.nesting_every_derivation", "C05.end_to_end_json_partial", "C05.squash_around_items",
-    "C05.no_exceptions", "C05.any_token_except", "C05.squash_data",
+    "C05.nesting", "C05.nesting_every_derivation", "C05.end_to_end_json_partial",
+    "C05.lines_cut_at_newline_only", "C05.squash_around_items", "C05.no_exceptions", "C05.any_token_except",
+    "C05.squash_data",
 ]
 
 RULE = ("one case = one grammar (real LLParser rebuilt from a JSON spec) + 8-14 rendered values, or 20 template "
@@ -100,6 +101,23 @@ def translate(repo):
                 if not all(32 < ord(c) < 127 and c not in '"\\' for c in suf):
                     raise ValueError("suffix %r is not printable ASCII" % suf)
                 found[want[key]] = suf
+    line_sep = None
+    for cls in tree.body:
+        if isinstance(cls, ast.ClassDef) and cls.name == "_Tokenizer":
+            for fn in cls.body:
+                if isinstance(fn, ast.FunctionDef) and fn.name == "tokenize":
+                    for g in ast.walk(fn):
+                        if not isinstance(g, ast.GeneratorExp) or len(g.generators) != 1:
+                            continue
+                        it, elt = g.generators[0].iter, g.elt
+                        ok_elt = (isinstance(elt, ast.Call) and isinstance(elt.func, ast.Attribute) and elt.func.attr == "rstrip"
+                                  and not elt.args and not elt.keywords)
+                        if (ok_elt and isinstance(it, ast.Call) and isinstance(it.func, ast.Attribute) and it.func.attr == "split"
+                                and len(it.args) == 1 and isinstance(it.args[0], ast.Constant)
+                                and isinstance(it.args[0].value, str) and len(it.args[0].value) == 1 and not it.keywords):
+                            line_sep = it.args[0].value
+    if line_sep is None:
+        raise ValueError("_Tokenizer.tokenize: a str is no longer cut into lines by (t.rstrip() for t in text.split(<one char>))")
     missing = sorted(set(want.values()) - set(found))
     if missing:
         raise ValueError("generated symbol names not found in complete_init: %s" % missing)
@@ -110,6 +128,7 @@ def translate(repo):
             "-- GENERATED by harness/c05.py:translate from /repo/ak/llparser.py -- do not edit\n"
             "namespace Gen.C05\n" + body +
             "def mapAfdDefault : Bool := %s\n" % ("true" if map_afd_default else "false") +
+            "def lineSep : Char := Char.ofNat %d\n" % ord(line_sep) +
             "end Gen.C05\n"}
 
 
@@ -349,8 +368,8 @@ def _dec_optbool(s):
 
 def impl(case):
     out = []
-    texts = [it["text"] for it in case.get("items", []) if it.get("cl")]
-    all_texts = [it["text"] for it in case.get("items", [])]
+    texts = [parse_input(it) for it in case.get("items", []) if it.get("cl")]
+    all_texts = [parse_input(it) for it in case.get("items", [])]
     ti, tj = 0, -1
     spec = case.get("spec")
     for line in case["lines"]:
@@ -363,6 +382,8 @@ def impl(case):
             elif op == "G":
                 cl = parser_of(spec).cleanuper
                 out.append("ok squash %s choice %s" % (_names(sorted(cl.squash_symbols)), _names(sorted(cl.choice_symbols))))
+            elif op == "ln":
+                out.append(real_lines(parser_of(spec), dec_str(toks[1])))
             elif op == "tp":
                 tj += 1
                 out.append("ok " + show_val(parser_of(spec).parse(all_texts[tj], do_cleanup=False)))
@@ -520,7 +541,7 @@ def oracle(case, replies):
     for it in case["items"]:
         exp = it["exp"]
         try:
-            root = parser.parse(it["text"])
+            root = parser.parse(parse_input(it))
         except ll.ParsingError:
             if exp[0] == "err":
                 continue
@@ -539,7 +560,23 @@ def oracle(case, replies):
 WORDS = ["a", "bb", "c1", "dd_", "k", "k1", "kk", "z", "x_1", "Lst"]
 
 
+# characters at which str.splitlines() breaks a line but str.split('\n') does not; all of them are \s blanks
+ODD_BLANKS = ["\r", "\x0b", "\x0c", "\x1c", "\x1d", "\x1e", "\x85", "\u2028", "\u2029", "\r\n", "\xa0", "\u3000"]
+
+
+def comment(rng):
+    """an end-of-line comment whose body looks like source text and may hold any blank character except \\n"""
+    body = "".join(rng.choice([" x", ",", " [", "]", " {", "}", ":", " k", " 7", ";", "//", " ", "\t"] + [c for c in ODD_BLANKS if "\n" not in c])
+                   for _ in range(rng.choice([0, 1, 3, 6])))
+    return "//" + body + "\n"
+
+
 def ws(rng, comments=True):
+    r = rng.random()
+    if r < 0.06:
+        return rng.choice(ODD_BLANKS) + rng.choice(["", " ", "\n"])
+    if comments and r < 0.14:
+        return rng.choice(["", " "]) + comment(rng) + rng.choice(["", " "])
     if comments:
         return rng.choice(["", "", " ", "  ", "\n", "\n  ", " // cmt\n", "\n\n", "\t", " //\n "])
     return rng.choice(["", "", " ", "  ", "\n ", "\t"])
@@ -547,7 +584,28 @@ def ws(rng, comments=True):
 
 def sep(rng, comments=True):
     """separator that keeps two words apart"""
+    r = rng.random()
+    if r < 0.06:
+        return rng.choice(ODD_BLANKS)
+    if comments and r < 0.14:
+        return " " + comment(rng)
     return rng.choice([" ", "  ", "\n", " // c\n", "\t "]) if comments else rng.choice([" ", "  ", "\n "])
+
+
+def input_mode(text):
+    """how the text is handed to parse(): a str, a list of lines, a list of lines that keep their newline"""
+    import zlib
+    return ["str", "str", "lines", "lines-nl"][zlib.crc32(text.encode("utf-8")) % 4]
+
+
+def parse_input(it):
+    text, mode = it["text"], it.get("mode", "str")
+    if mode == "lines":
+        return text.split("\n")
+    if mode == "lines-nl":
+        ls = text.split("\n")
+        return [l + "\n" for l in ls[:-1]] + [ls[-1]]
+    return text
 
 
 # ---- family 1: every ListProds option combination (port of design_probes/c05_list_all_options.py)
@@ -1297,6 +1355,8 @@ def f4_cases(rng, tier):
 def build_lines(case):
     lines = [case["g"], case["G"]]
     for it in case["items"]:
+        if it.get("mode", "str") == "str":
+            lines.append(ln_line(it["text"]))
         lines.append(it["tp"])
         lines.append("tc")
         if it.get("cl"):
@@ -1305,14 +1365,22 @@ def build_lines(case):
     return lines
 
 
-def lexemes(text):
-    """what the tokenizer's regular expression finds, line by line (group name, text) -- before synonyms / skipping"""
+def lexemes(it):
+    """what the tokenizer's regular expression finds, line by line (group name, text) -- before synonyms / skipping.
+    A str is cut at '\\n' only and every line is rstripped; an iterable of lines is taken as it is."""
     import re
     m = re.compile(TK, re.VERBOSE)
+    inp = parse_input(it)
+    lines = [l.rstrip() for l in inp.split("\n")] if isinstance(inp, str) else inp
     out = []
-    for line in text.split("\n"):
-        for mm in m.finditer(line.rstrip()):
+    for line in lines:
+        col = 0
+        while col < len(line):
+            mm = m.match(line, col)
+            if mm is None:
+                raise ValueError("lexical error in generated text")
             out.append((mm.lastgroup, mm.group()))
+            col = mm.end()
     return out
 
 
@@ -1337,8 +1405,21 @@ def G_line(spec):
         _names(groups), _names(syn), _names(all_terminals()), " ; ".join(ents))
 
 
-def tp_line(text):
-    lx = lexemes(text)
+def ln_line(text):
+    return "ln " + enc_str(text)
+
+
+def real_lines(parser, text):
+    """the lines as the real tokenizer sees them: the lexemes of each line (they tile the line) joined, empty lines dropped"""
+    by_line = {}
+    for t in parser.tokenizer.tokenize(text, "t"):
+        if t.value is not None:
+            by_line[t.start_pos.line] = by_line.get(t.start_pos.line, "") + t.value
+    return ("ok " + " ".join("%d:%s" % (n, enc_str(v)) for n, v in sorted(by_line.items()))).rstrip()
+
+
+def tp_line(it):
+    lx = lexemes(it)
     return ("tp " + " ".join(enc_str(g) + " " + enc_str(v) for g, v in lx)).rstrip()
 
 
@@ -1356,9 +1437,13 @@ def make_case(spec, items, meta):
                 "G": G_line(spec), "meta": dict(meta, grammar_rejected=type(e).__name__)}
     g = g_line(spec)
     for it in items:
-        it["tp"] = tp_line(it["text"])
+        it.setdefault("mode", input_mode(it["text"]))
+        if any(c in it["text"] for c in ODD_BLANKS if c != "\r\n"):
+            it["tags"] = it.get("tags", []) + ["odd-blank-character"]
+        it["tags"] = it.get("tags", []) + ["input:" + it["mode"]]
+        it["tp"] = tp_line(it)
         try:
-            raw = p.parse(it["text"], do_cleanup=False)
+            raw = p.parse(parse_input(it), do_cleanup=False)
             it["cl"] = "cl " + show_val(raw)
         except Exception:
             it["cl"] = None
@@ -1499,17 +1584,20 @@ def shrink(case):
         c["lines"] = build_lines(c)
         yield c
     if len(items) == 1:
-        # shorten the text: drop one token-ish chunk at a time and recompute nothing (expectation is kept only
-        # for the unchanged text), so only whitespace is simplified here
+        # simplify the blanks of the text (the expectation depends on the tokens only); then hand it over as a str
+        import re
         it = items[0]
-        simple = " ".join(it["text"].replace("// cmt", " ").replace("// c", " ").replace("//", " ").split())
-        if simple != it["text"]:
+        for simple in (re.sub(r"//[^\n]*", " ", it["text"]), " ".join(re.sub(r"//[^\n]*", " ", it["text"]).split())):
+            if simple == it["text"] and it.get("mode") == "str":
+                continue
+            it2 = dict(it, text=simple, mode="str")
+            it2["tp"] = tp_line(it2)
             try:
                 raw = parser_of(case["spec"]).parse(simple, do_cleanup=False)
-                cl = "cl " + show_val(raw)
+                it2["cl"] = "cl " + show_val(raw)
             except Exception:
-                cl = None
-            c = dict(case, items=[dict(it, text=simple, cl=cl)])
+                it2["cl"] = None
+            c = dict(case, items=[it2])
             c["lines"] = build_lines(c)
             yield c
 
@@ -1564,7 +1652,8 @@ LEVEL_TEXT = (
     "vanish around items, kept ones stay (squash_around_items); the clean-up of a well-typed conforming tree never raises "
     "Assertion/Index/AttributeError (no_exceptions); _make_squash_data characterised (squash_data); constructor options are "
     "well-formed when user symbols contain no '__' and the item symbol is not a bracket/delimiter symbol "
-    "(wf_of_list_constructor, wf_of_map_constructor). END TO END (end_to_end_json_partial): with constructor (LL model's "
+    "(wf_of_list_constructor, wf_of_map_constructor); a str is cut into lines at '\\n' only, the separator being read from the "
+    "source (lines_cut_at_newline_only). END TO END (end_to_end_json_partial): with constructor (LL model's "
     "factorize / nullables / FIRST / FOLLOW / table + template expansion + StdCleanuper.make), parse loop (LL.run, roll-backs "
     "included) and clean-up all inside the model, for the json grammar E -> VALUE -> WORD | LIST | MAP with default options and "
     "BOTH smart_factorization values: for every written value (any depth, final delimiters) and any blank lexemes, the parser "
@@ -1579,11 +1668,14 @@ LEVEL_NOTE = (
     "cannot read and GrammarError / AssertionError of the constructor; (cl) model clean-up of the real raw tree == real "
     "parse(text); diagnostics: model raw tree == real raw tree (tp), generated productions and signature tables (lp/mp), "
     "AnyTokenExcept expansion in sequences and production lists (sp/pr), sequence flattening (sq), squash data (g/G), the "
+    "lines of a str as the tokenizer cuts them (ln: model strLines == lexemes of the real tokenizer grouped by line), the "
     "theorems' hypotheses conforms/wellTyped on every real tree (cf). Generators: every accepted ListProds option combination x "
     "both smart_factorization values x keep_symbols variants, nested json-like data with objects / optional containers / "
     "sequences (AnyTokenExcept first/middle/last) / bracket-less maps / nullable items and values / pair lists, token items, "
     "non-terminal delimiters, composite keys, list items with AnyTokenExcept at every position, coinciding symbols (key = value "
-    "= assign, open = close, delimiter = bracket, word brackets), random blanks, newlines and comments.")
+    "= assign, open = close, delimiter = bracket, word brackets), random blanks, newlines and comments -- including form feed, "
+    "vertical tab, lone \\r, \\x1c-\\x1e, \\x85, U+2028/2029, NBSP inside blank runs and inside comment bodies that look like "
+    "source text -- handed to parse() as a str, as a list of lines and as a list of lines keeping their newline.")
 TECHNIQUE = ("Lean 4 theorems over an executable structural-recursive model of the templates and the cleanuper (derivation "
              "shapes as inductive predicates, case analysis over all option fields) + translator for generated names + "
              "composition with the LL parser model (constructor + parse loop; a local 'predicted by ordered choice' lemma for "
